@@ -5,12 +5,12 @@ package main
 
 import (
 	"fmt"
-	"sync"
 	"go/types"
 	"io"
 	"math/big"
 	"sort"
 	"strings"
+	"sync"
 	"time"
 
 	"golang.org/x/tools/go/ssa"
@@ -104,37 +104,38 @@ type interp struct {
 	traceOut     io.Writer
 
 	// per path state
-	globals     map[*ssa.Global]*value
-	pkgInit     map[*ssa.Package]bool
-	inInit      int
-	pc          []*Term
-	pcUnknown   bool // some feasibility answer on this path was "unknown"
-	nondetCount map[string]int
-	nondets     []nondetRec
-	steps       int
-	ufApps      map[string][]*ufApp
-	ufCount     int
-	onceDone    map[*value]bool
-	stubCalls   map[string]int
-	stubLog     []stubCallRec // per path: every by-name stub call with its arguments
-	jsonBinds   []jsonBind
+	globals      map[*ssa.Global]*value
+	pkgInit      map[*ssa.Package]bool
+	inInit       int
+	pc           []*Term
+	pcUnknown    bool // some feasibility answer on this path was "unknown"
+	nondetCount  map[string]int
+	nondets      []nondetRec
+	steps        int
+	ufApps       map[string][]*ufApp
+	ufCount      int
+	onceDone     map[*value]bool
+	stubCalls    map[string]int
+	stubLog      []stubCallRec // per path: every by-name stub call with its arguments
+	clock        int64         // per path: ticks of the concrete clock stub
+	jsonBinds    []jsonBind
 	harnessStubs map[string][]value
-	tickers     int
-	atomicVals  map[*value]value
-	lastTime    *Term
-	reachedNow  []string
-	recovered   []string
-	params      map[string]int64
+	tickers      int
+	atomicVals   map[*value]value
+	lastTime     *Term
+	reachedNow   []string
+	recovered    []string
+	params       map[string]int64
 
 	// exploration state
-	prefix    []int
-	trace_    []decision
-	dpos      int
+	prefix      []int
+	trace_      []decision
+	dpos        int
 	prefixKnown []int8
 	knownStack  [][]int8
-	model     map[*Term]*big.Int // satisfies pc[:modelLen]
-	modelLen  int
-	modelMemo map[*Term]*big.Int
+	model       map[*Term]*big.Int // satisfies pc[:modelLen]
+	modelLen    int
+	modelMemo   map[*Term]*big.Int
 
 	// accumulated
 	res        *HarnessResult
@@ -159,6 +160,7 @@ func (in *interp) resetPath() {
 	in.onceDone = map[*value]bool{}
 	in.stubCalls = map[string]int{}
 	in.stubLog = nil
+	in.clock = 0
 	in.jsonBinds = nil
 	in.harnessStubs = map[string][]value{}
 	in.tickers = 0
@@ -541,15 +543,15 @@ type job struct {
 }
 
 type hstate struct {
-	spec     *HarnessSpec
-	fn       *ssa.Function
-	start    time.Time
-	deadline time.Time
-	budget   time.Duration
-	mu       sync.Mutex
-	parts    []*interp // one per worker that touched this harness
-	paths    int64
-	stopped  bool
+	spec        *HarnessSpec
+	fn          *ssa.Function
+	start       time.Time
+	deadline    time.Time
+	budget      time.Duration
+	mu          sync.Mutex
+	parts       []*interp // one per worker that touched this harness
+	paths       int64
+	stopped     bool
 	outstanding int
 }
 
@@ -813,7 +815,9 @@ func mergeResults(parts []*HarnessResult) *HarnessResult {
 		out.Stubs = append(out.Stubs, f)
 	}
 	sort.Strings(out.Stubs)
-	sort.Slice(out.Findings, func(i, j int) bool { return out.Findings[i].Label+out.Findings[i].Site < out.Findings[j].Label+out.Findings[j].Site })
+	sort.Slice(out.Findings, func(i, j int) bool {
+		return out.Findings[i].Label+out.Findings[i].Site < out.Findings[j].Label+out.Findings[j].Site
+	})
 	sort.Slice(out.Witnesses, func(i, j int) bool { return out.Witnesses[i].Label < out.Witnesses[j].Label })
 	return out
 }
